@@ -24,7 +24,7 @@ CLAIMED = {
          "all scale requests of the cycle, not only the last"),
  "C08": ("5/C08", "bounded: complete per-shard request log under the full seven-step health script at (1,1),(2,0) (thorough (1,2),(2,1)); destination-is-in-sync lemmas with S<=3",
          "request logs against scripted health"),
- "C09": ("5/C09", "IN PART: crash-atomicity of the store protocol over an abstract store (whole blob / proper prefix / absent); byte-level JSON fidelity and the exact byte offset are the store contract, exercised only by native co-simulation; K<=1 (thorough 2), two consecutive restarts",
+ "C09": ("5/C09", "IN PART: crash-atomicity of the store protocol over an abstract store (whole document / proper prefix / absent, symbolic document lengths ordered by content weight; ioutil.WriteFile, os.OpenFile+Write+Sync+Close with or without O_TRUNC, os.Rename atomic); five store faults incl. 'killed one byte before the end'; byte-level JSON fidelity is the store contract, exercised only by native co-simulation; K<=1 hashes in the store-crash harness, K<=2 in the restart harness, two consecutive restarts",
          "protocol-level, structural"),
  "C10": ("5/C10", "one inductive step from an arbitrary state satisfying the representation invariant over K<=2 (3) hashes and 2 jobs: covers update sequences of any length within that universe provided the invariant is right (it is re-established by every step and by Load); interleaving with concurrent scrapes is outside",
          "inductive, sequential"),
@@ -34,16 +34,16 @@ CLAIMED = {
          "one request through the real ServeHTTP / scraper / tee / status code"),
  "C14": ("5/C14", "bounded: StatisticSeries over <=3 (4) rows, window arithmetic in exact floating-point theory for values < 2^20 (2^32), runtimeInfo sums over <=2 (3) targets, composition through ServeHTTP on the fixed payload; relabel.Process is a keep/drop contract model",
          "accounting kernels + composition"),
- "C15": ("5/C15", "IN PART: the hash term is a function of the final label sequence and URL only (two discoveries differing in label placement, meta labels and iteration order give equal hashes and equal shipped labels), equal entries collapse; xxhash / FNV are uninterpreted functions, so collision-freeness ('different labels, different hashes') and cross-process stability are outside",
-         "function-of-final-labels, order independence, dedupe"),
- "C17": ("5/C17", "SEQUENTIAL HISTORIES ONLY: first round + one step (update or reload) over 2 jobs with <=1 target per group; interleavings of readers and writers are not explored (no thread model) - in their place a structural lemma is decided: a reload / an update reads and replaces the target sets inside ONE critical section (lock acquisitions counted by the executor; such a counterexample is confirmed by concrete re-execution of the SSA, not natively); targetsFromGroup is summarised",
-         "sequential snapshot / tracking semantics + single-critical-section lemma"),
+ "C15": ("5/C15", "IN PART: the hash term is a function of the final label sequence and URL only (two discoveries differing in label placement, meta labels and iteration order give equal hashes and equal shipped labels), equal entries collapse, and every surviving label reaches the hash input (sensitivity: targets differing in one surviving label - ordinary or reserved non-meta non-URL - CAN get different hashes; satisfiability with xxhash / FNV uninterpreted); collision-freeness as such and cross-process stability are outside",
+         "function-of-final-labels, order independence, dedupe, sensitivity"),
+ "C17": ("5/C17", "sequential histories (first round + one step over 2 jobs, <=1 target per group; targetsFromGroup summarised) AND a bounded thread model: the real TargetsDiscovery.Run loop, a reload and a reader under every schedule with context switches at synchronisation operations, <=2 preemptions (thorough 4), one or two discovery rounds in flight; schedules are enumerated as forks of the executor (no SMT query is involved in this part: the data is concrete), counterexamples are confirmed by concrete re-execution of the SSA, not natively; data races as such (the unlocked read of m.config) and weak memory are outside",
+         "sequential snapshot / tracking semantics + schedule exploration of the Run loop"),
  "C18": ("5/C18", "bounded: replica counts in [0,6], <=2 claim templates, <=3 pods in every order; client-go replaced by recording fakes",
          "calls made to the Kubernetes API, not the API server's behaviour"),
- "C19": ("5/C19", "bounded self-composition with K=1, B one shard, A one or two shards (quick: A with concrete loads); clock frozen; cross-cycle influence through explorer-owned status objects is outside",
-         "two-run equivalence of B's requests"),
- "C20": ("5/C20", "IN PART: sequential kernel (Get / exploreOnce / table updates keep the entry objects the workers hold, estimate through the real UpdateScrapeResult) and the first-assignment clause on two real coordination cycles around one scripted probe; the retry loop, at-most-one-in-flight and all interleavings are NOT covered (no thread model)",
-         "sequential kernel + first-assignment clause"),
+ "C19": ("5/C19", "bounded self-composition with K=1: one cycle over [A,B] vs [B] (B one shard, A one shard, quick with concrete loads for A) and two consecutive cycles of one coordinator and explorer over [A,B] vs [A] (found C19-F1, fixed); clock frozen; influence over more than two cycles is outside",
+         "two-run equivalence of the requests a replica's shards receive"),
+ "C20": ("5/C20", "sequential kernel (Get / exploreOnce / table updates, estimate through the real UpdateScrapeResult), the first-assignment clause on two real coordination cycles, AND a bounded thread model: the real Explore.Run with 1 (thorough 2) workers, its retry goroutines and a driver (lookups + one concurrent update / reload) under every schedule with <=2 preemptions, <=1 (2) failing probes, K<=2 (3) targets, optionally a work queue shrunk to 1 slot; at quiescence every asked-for target has its estimate, no probe after success, one probe in flight, retry not before the interval (clock symbolic, decided by the solver); schedules are forks of the executor, counterexamples confirmed by concrete re-execution, not natively; data races and real timing are outside",
+         "sequential kernel + first-assignment clause + schedule exploration of Run"),
 }
 
 NOT_APPLICABLE = {
